@@ -36,6 +36,8 @@ ODD = [
     "Select(Select(ds, lambda e: [e.a, e.b]), lambda t: t[1:])", "Select(Select(ds, lambda e: {'a': e.a}), lambda d: d['b'])",
     "First(ds)[-1]", "First(Select(ds, lambda e: (e.a, e.b)))[e]", "Select(ds, lambda e: {**e.d}['a'])", "{**d}.a",
     "Select(ds, lambda e: e.jets[0])", "(1, 2)[0][0]", "((1, 2), 3)[0][1]", "((1, 2), 3)[0][2]", "{'a': (1, 2)}['a'][1]", "{'a': {'b': 1}}.a.b",
+    "(1, 2)[-2]", "[1][-1]", "(1, 2, 3)[-3]", "(lambda s: s[-2])((1, 2))", "Select(Select(ds, lambda e: (e.a, e.b)), lambda t: t[-2])",
+    "First(Select(ds, lambda e: [e.a, e.b]))[-2]", "(1, 2)[-3]", "[1][-2]",
     "First()", "First().a", "First()[0]", "First().m()", "Select()", "Select(ds)", "Where(ds, 1)", "SelectMany(ds, f)",
 ]
 
@@ -70,6 +72,11 @@ def inject(rng: random.Random, q: ast.expr) -> ast.expr:
         else:
             pk = gen.dct([(C("a"), inner), (N("k"), C(2))]) if r.random() < 0.3 else gen.dct([(C(1), inner)])
         sel = r.choice(odd_selectors(r, []))
+        if isinstance(pk, (ast.Tuple, ast.List)) and r.random() < 0.25:
+            # the boundary indices: -len (legal), -len-1 and len (index errors), as a literal and as a constant node
+            n = len(pk.elts)
+            k = r.choice([-n, -n - 1, n, n - 1])
+            sel = _const(k) if (k >= 0 or r.random() < 0.5) else ast.UnaryOp(op=ast.USub(), operand=C(-k))
         if isinstance(pk, ast.Dict) and r.random() < 0.4:
             new = A(pk, r.choice(["a", "zz", "b"]))
         elif isinstance(pk, ast.Dict) and r.random() < 0.5:
@@ -115,6 +122,17 @@ def check_total(ctx, q, model_ln, datasets):
             failed = True
             ctx.fail("failing-input", "simplify(%s) %s" % (bridge.dump(q), "raises " + str(out) if st == "crash" else "does not terminate (RecursionError)"),
                      {"oracle": "total", "query": ast.unparse(q), "query_dump": ast.dump(q)}, key=c02.key(q))
+        elif st == "indexerr":
+            # permitted only for a constant index outside a tuple/list literal.  The model decides that exactly
+            # (theorem index_error_exactly_out_of_range); where it says the projection is in range and python agrees
+            # by evaluating the query, the implementation's index error is a violation with this query as replay.
+            for i, ds in (enumerate(datasets) if model_ln != "INDEXERR" else []):
+                a = sc.pyeval(q, ds, {"i": 1, "k": "a"})
+                if a[0] == "ok":
+                    failed = True
+                    ctx.fail("failing-input", "simplify(%s) raises FuncADLIndexError although the query evaluates to %r" % (bridge.dump(q), a[1]),
+                             {"oracle": "index-error", "query": ast.unparse(q), "query_dump": ast.dump(q), "dataset": i}, key=c02.key(q))
+                    break
         elif st == "ok":
             why = None
             if sc.has_raw(out):
